@@ -1,7 +1,7 @@
 from .base import *
 
 ID = 'C13'
-THEOREMS = ['C13_distance_encoding', 'C13_mag_diff', 'C13_invert_panic', 'C13_radicand_value', 'C13_distance_value', 'C13_radicand_def']
+THEOREMS = ['C13_distance_encoding', 'C13_mag_diff', 'C13_invert_panic', 'C13_radicand_value', 'C13_distance_value', 'C13_radicand_def', 'C13_symmetry']
 OWNED = {'GDist', 'GMagDiff', 'GInvCircle'}
 RULE = ('points from the C01 domain incl. coincident and k-ulp-apart points on one ray, whole-turn twins, collinear triples; distance both ways, to itself, vs |a-b|, triangle inequality over triples; mag_diff; '
         'circle inversion with radius and centre offset over eight decades, points on the circle, the centre itself, double inversion. non-trivial = owned op result differs from its operands')
